@@ -8,7 +8,8 @@ from ..tlc import MachineryError
 
 CLASSES = {0: "Points", 2: "Curve", 3: "Surface"}
 CFG = {
-    "quick": [("MergePoints.cfg", 0, None), ("MergeCurveQuick.cfg", 2, 2500), ("MergeSurfaceQuick.cfg", 3, 1500)],
+    "quick": [("MergePoints.cfg", 0, None), ("MergeCurveQuick.cfg", 2, 2000), ("MergeSurfaceQuick.cfg", 3, 1200),
+              ("MergeCurve3.cfg", 2, 1200)],
     "thorough": [("MergePoints.cfg", 0, None), ("MergeCurveQuick.cfg", 2, None),
                  ("MergeSurfaceQuick.cfg", 3, None), ("MergeCurve3.cfg", 2, 20000)],
 }
@@ -23,7 +24,24 @@ def val(tok):
 
 
 def _replay(item):
-    case, arity = item
+    case, arity = item[0], item[1]
+    on_file = len(item) > 2 and item[2]
+    if on_file:
+        # every 6th case is merged in a real file and read back by a fresh Workspace after close
+        import os
+        from ..pool import scratch
+        path = os.path.join(scratch(), f"merge_{os.getpid()}.geoh5")
+        if os.path.exists(path):
+            os.remove(path)
+        try:
+            return _replay_in(case, arity, path)
+        finally:
+            if os.path.exists(path):
+                os.remove(path)
+    return _replay_in(case, arity, None)
+
+
+def _replay_in(case, arity, path):
     from geoh5py import Workspace
     from geoh5py import objects
     from geoh5py.shared.merging import CurveMerger, PointsMerger, SurfaceMerger
@@ -34,7 +52,7 @@ def _replay(item):
     def bad(sig, msg):
         viol.append({"signature": sig, "summary": msg, "case": {"arity": arity, "case": case}})
 
-    with Workspace() as ws:
+    with (Workspace.create(path) if path else Workspace()) as ws:
         types = {}
         ins = []
         for k, o in enumerate(case["ins"], 1):
@@ -102,6 +120,28 @@ def _replay(item):
                 bad("data-misplaced", f"data {key}: got {have.tolist()} expected {want.tolist()}")
         if got_data:
             bad("data-extra", f"unexpected merged data {sorted(got_data)}")
+        if path:
+            merged_uid = out.uid
+            ws.close()
+            with Workspace(path, mode="r") as ws2:
+                re = ws2.get_entity(merged_uid)[0]
+                if re is None:
+                    bad("stored-merged-missing", "merged object not found after re-opening the file")
+                else:
+                    if not np.array_equal(re.vertices, ev):
+                        bad("stored-vertices", "stored vertices of the merged object differ")
+                    if arity and not np.array_equal(np.array(re.cells), np.array(out.cells)):
+                        bad("stored-cells", "stored cells of the merged object differ from the live ones")
+                    stored = {(c.name, c.association.name): np.array(c.values, dtype=float) for c in re.children
+                              if hasattr(c, "association") and hasattr(c, "values") and c.values is not None}
+                    for d in present:
+                        key = ("ab"[(d - 1) // 2], "VERTEX" if d % 2 == 1 else "CELL")
+                        want = np.array([np.nan if t < 0 else val(t) for t in exp["data"][d - 1]])
+                        have = stored.get(key)
+                        if have is None or have.shape != want.shape or not np.array_equal(have, want, equal_nan=True):
+                            bad("stored-data-differs", f"data {key} read back from the file: "
+                                f"{None if have is None else have.tolist()} expected {want.tolist()}")
+            return viol
         for o, (v0, c0, d0) in zip(ins, before):
             same = np.array_equal(o.vertices, v0) and (c0 is None or np.array_equal(np.array(o.cells), c0))
             now = {(c.name, c.association.name): np.array(c.values)
@@ -125,7 +165,7 @@ def run(tier, seed):
         trans += res.generated
         chosen, full = funcheck.sample(cases, limit, seed)
         exhaustive = exhaustive and full
-        v, wall = funcheck.replay_all(_replay, [(c, arity) for c in chosen])
+        v, wall = funcheck.replay_all(_replay, [(c, arity, i % 6 == 0) for i, c in enumerate(chosen)])
         viol += v
         total_cases += len(cases)
         replayed += len(chosen)
@@ -149,7 +189,8 @@ def run(tier, seed):
         },
         "assumptions": [
             "bounds: see cfg files in spec/merge (2-3 inputs, <=3(4) vertices, <=2 cells, <=2(4) data keys)",
-            "float data only (NumericData); drape models are covered by the separate drape cfg when present",
+            "float data only (NumericData); drape models are not covered (see DESIGN.md 11)",
+            "every 6th replayed case is merged in a real file and the merged object is read back by a fresh Workspace",
             "quick tier replays a seeded sample of the enumerated cases; thorough replays all of the 2-input spaces",
         ],
     }
